@@ -1,90 +1,134 @@
 (* C01 — File lock: at most one holder at any instant.
-   Model: coq/C01/Model.v (RemoteLockFile at backend-operation granularity).  [run (init ovrs) its] executes ANY
-   schedule [its] (calls, single backend operations of API threads and heartbeat writers with their staleness
-   verdicts, deaths) for ANY number of lock objects [ovrs] (their override flags). *)
+   Model: coq/C01/Model.v (RemoteLockFile at backend-operation granularity), PARAMETERISED by the facts of
+   utils/filesystem/lockfile.go (coq/C01/Facts.v); [facts] below is the record REGENERATED FROM THE SOURCE on every run
+   (coq/C01/Gen.v, written by translator-c01/cmd/lock2coq).  Every theorem is stated for the model instantiated with the
+   generated record: its first conjunct(s) are the conditions on the source facts that the model / the proof needs,
+   discharged by computation on the generated record — an edit of lockfile.go that changes one of those facts breaks
+   exactly the theorems that list it.  [run facts (init ovrs) its] executes ANY schedule [its] (calls, single backend
+   operations of API threads and heartbeat writers with the logical age of the time stamp read, deaths, deadlines) for
+   ANY number of lock objects [ovrs] (their override flags). *)
 From Coq Require Import List Bool Arith.
 Import ListNotations.
-From GU Require Import C01.Model C01.Proofs C01.Proofs2 C01.Witness.
+From GU Require Import C01.Facts C01.Model C01.Proofs C01.Proofs2 C01.Witness C01.Gen.
+
+(* cond_acquire: TryLock creates the lock with the EXCLUSIVE mkdir, only "exists" means held, every other mkdir error is
+   returned, the heartbeat is started (and nil returned) only after both tests, the override branch retries TryLock,
+   Lock retries on ErrLocked only / returns nil only on TryLock's nil, LockWithTimeout runs Lock.
+   cond_release: LockWithTimeout issues no Unlock on timeout; the held branch asks IsStale (not negated) and the override
+   flag (not negated); IsStale answers false on every error path and its comparisons imply "older than 100 ms". *)
 
 (* For every schedule, every history, every number of contenders: as long as no Remove has destroyed a lock
    directory whose creator was engaged with it (acquired or acquiring, release not begun) and alive — ghost flag
    [bad] — at most one live contender holds.  So mkdir is exclusive, and two simultaneous holders can ONLY come from a
    removal of somebody's live lock. *)
-Theorem lock_mkdir_exclusive : forall ovrs its s os,
-  run (init ovrs) its = Some (s, os) -> bad s = false -> live_holders s <= 1.
-Proof. exact mkdir_exclusive_l. Qed.
+Theorem lock_mkdir_exclusive :
+  cond_acquire facts = true /\
+  forall ovrs its s os, run facts (init ovrs) its = Some (s, os) -> bad s = false -> live_holders s <= 1.
+Proof. split; [reflexivity|]. exact (mkdir_exclusive_l facts eq_refl). Qed.
 Print Assumptions lock_mkdir_exclusive.
 
 (* Every engaged live contender's directory is the one on disk (same statement, on the state). *)
-Theorem lock_holder_owns_directory : forall ovrs its s os c x g,
-  run (init ovrs) its = Some (s, os) -> bad s = false ->
+Theorem lock_holder_owns_directory :
+  cond_acquire facts = true /\
+  forall ovrs its s os c x g,
+  run facts (init ovrs) its = Some (s, os) -> bad s = false ->
   nth_error (cs s) c = Some x -> alive x = true -> eng x = Some g ->
   exists d, fs s = Some d /\ gen d = g /\ owner d = c.
-Proof. intros ovrs its s os c x g H Hb. destruct (Inv_run ovrs its s os H) as (Hex & _). exact (Hex Hb c x g). Qed.
+Proof.
+  split; [reflexivity|]. intros ovrs its s os c x g H Hb.
+  destruct (Inv_run facts eq_refl ovrs its s os H) as (Hex & _). exact (Hex Hb c x g).
+Qed.
 Print Assumptions lock_holder_owns_directory.
 
 (* Lock / LockWithTimeout / TryLock report success only through a successful Mkdir of the same call, and a holder is
    always engaged (covers the blocking acquires: they are polls of TryLock). *)
-Theorem lock_blocking_acquire_polls : forall ovrs its s os c x,
-  run (init ovrs) its = Some (s, os) -> nth_error (cs s) c = Some x -> holds x = true -> eng x <> None.
-Proof. intros ovrs its s os c x H. destruct (Inv_run ovrs its s os H) as (_ & Hhe & _). exact (Hhe c x). Qed.
+Theorem lock_blocking_acquire_polls :
+  cond_acquire facts = true /\
+  forall ovrs its s os c x,
+  run facts (init ovrs) its = Some (s, os) -> nth_error (cs s) c = Some x -> holds x = true -> eng x <> None.
+Proof.
+  split; [reflexivity|]. intros ovrs its s os c x H.
+  destruct (Inv_run facts eq_refl ovrs its s os H) as (_ & Hhe & _). exact (Hhe c x).
+Qed.
 Print Assumptions lock_blocking_acquire_polls.
 
 (* FULL mutual exclusion, for all schedules, histories and contender counts, under two explicit hypotheses:
    (atomic release — built into [rrun]/[allowedb]) while ANOTHER contender's release window is open, no Mkdir succeeds.
    The release window of a call is open from the start of an Unlock call, or from the moment the call reads a time stamp
-   judged stale, until the call's next operation is its own Mkdir (its release is over) or the call returns.  Failing
+   older than 100 ms, until the call's next operation is its own Mkdir (its release is over) or the call returns.  Failing
    Mkdirs (pollers) are always allowed.  This is DESIGN's A1+A2 made one condition and STRENGTHENED: A1 as planned (window
    from the first removal step only) does not exclude K1b below, so the planned statement would have been false.
-   (oracle — the property's proviso "as long as the holder's heartbeat keeps running", C17's live_never_stale) stale
-   verdicts follow an oracle [judge] that never judges stale a directory whose creator is engaged with it and alive.
+   (oracle — the property's proviso "as long as the holder's heartbeat keeps running", C17's live_never_stale) time
+   stamps older than 100 ms are presented only where an oracle [judge] allows it, and it never does for a directory whose
+   creator is engaged with it and alive.
    Conclusion, in every reachable state (hence at every instant of every history): at most one live holder; no Remove
    ever destroyed a live holder's directory (a release removes only the releaser's own or a non-live generation, so a
-   stale generation is taken over by one contender); every live engaged contender's directory is the one on disk. *)
-Theorem lock_mutex_under_atomic_release : forall (judge : state -> bool),
+   stale generation is taken over by one contender; a timed-out LockWithTimeout removes nothing); every live engaged
+   contender's directory is the one on disk. *)
+Theorem lock_mutex_under_atomic_release :
+  cond_acquire facts = true /\ cond_release facts = true /\
+  forall (judge : state -> bool),
   (forall s, judge s = true -> live_owner (fs s) (cs s) = false) ->
-  forall ovrs its s, rrun judge (init ovrs) its = Some s ->
+  forall ovrs its s, rrun facts judge (init ovrs) its = Some s ->
   live_holders s <= 1 /\ bad s = false /\
   (forall c x g, nth_error (cs s) c = Some x -> alive x = true -> eng x = Some g ->
      exists d, fs s = Some d /\ gen d = g /\ owner d = c).
-Proof. exact mutex_under_atomic_release_l. Qed.
+Proof. split; [reflexivity|]. split; [reflexivity|]. exact (mutex_under_atomic_release_l facts eq_refl). Qed.
 Print Assumptions lock_mutex_under_atomic_release.
 
-(* the hypotheses are satisfiable: dead holder + override + poller, each of three contenders acquires once *)
-Example restricted_relation_inhabited : exists s,
-  rrun judge_max (init ex_ovr) (map item_of ex_entries) = Some s /\
-  map (fun x => length (hbs x)) (cs s) = [1; 1; 1] /\ map alive (cs s) = [false; true; true] /\ live_holders s = 1.
-Proof. exact restricted_example_l. Qed.
-Example refutations_break_atomicity :
-  rrun judge_max (init k1_ovr) (map item_of k1_entries) = None /\
-  rrun judge_max (init k1b_ovr) (map item_of k1b_entries) = None /\
-  rrun judge_max (init k2_ovr) (map item_of k2_entries) = None.
-Proof. exact refutations_break_atomicity_l. Qed.
-Example judge_max_is_sound : forall s, judge_max s = true -> live_owner (fs s) (cs s) = false.
-Proof. exact judge_max_sound. Qed.
+(* The code's staleness verdict IS "the time stamp is older than 100 ms" (2 heartbeat periods of 50 ms, strict, in
+   milliseconds on both sides), for the empty lock directory and for the heartbeat file alike — the canonical verdict
+   the ghost windows, the oracle hypothesis and the harness use. *)
+Theorem stale_threshold_is_two_periods :
+  cond_threshold facts = true /\
+  forall age, thr facts (is_empty_period facts) age = canon age /\ thr facts (is_files_period facts) age = canon age.
+Proof. split; [reflexivity|]. intros age. split; reflexivity. Qed.
+Print Assumptions stale_threshold_is_two_periods.
 
-(* The full mutual-exclusion statement is FALSE of the faithful model.  K1: no stale verdict, nobody dies, the
-   staleness oracle is respected — a releaser's retry destroys its successor's lock and two live contenders hold. *)
+(* Everything else the hand-written parts assume about lockfile.go (heartbeat loop: context check first, write and
+   chtimes errors ignored — the loop continues —, sleep of period - 1 ms, context derived from the caller's and
+   registered in the cancel store, file named after the id; Unlock: cancel first, Rm of the lock path, errors retried,
+   Exists re-check, 10 attempts, retry bound to the context; context checks first; error kinds returned; periods). *)
+Theorem lock_source_facts_as_modelled : facts = expected_facts.
+Proof. reflexivity. Qed.
+Print Assumptions lock_source_facts_as_modelled.
+
+(* the hypotheses are satisfiable: dead holder + override + poller, each of three contenders acquires once *)
+Example judge_max_is_sound : forall s, judge_max s = true -> live_owner (fs s) (cs s) = false.
+Proof. intros s H. now apply negb_true_iff in H. Qed.
+Example restricted_relation_inhabited : exists s,
+  rrun facts judge_max (init ex_ovr) (map item_of ex_entries) = Some s /\
+  map (fun x => length (hbs x)) (cs s) = [1; 1; 1] /\ map alive (cs s) = [false; true; true] /\ live_holders s = 1.
+Proof. eexists. vm_compute. repeat split. Qed.
+Example refutations_break_atomicity :
+  rrun facts judge_max (init k1_ovr) (map item_of k1_entries) = None /\
+  rrun facts judge_max (init k1b_ovr) (map item_of k1b_entries) = None /\
+  rrun facts judge_max (init k2_ovr) (map item_of k2_entries) = None.
+Proof. vm_compute. repeat split. Qed.
+
+(* The full mutual-exclusion statement is FALSE of the faithful model (instantiated with the generated facts).
+   K1: no time stamp older than 100 ms is ever presented, nobody dies, the staleness oracle is respected — a releaser's
+   retry destroys its successor's lock and two live contenders hold. *)
 Theorem lock_mutex_refuted_K1 : exists ovrs its s,
-  final ovrs its = Some s /\ respects_oracle (init ovrs) its = true /\
-  forallb (fun it => match it with IStep _ _ true => false | _ => true end) its = true /\
+  final facts ovrs its = Some s /\ respects_oracle facts (init ovrs) its = true /\
+  forallb (fun it => match it with IStep _ _ a => negb (canon a) | _ => true end) its = true /\
   forallb (fun it => match it with IKill _ => false | _ => true end) its = true /\
   2 <= live_holders s /\ bad s = true.
-Proof. exact refuted_K1_l. Qed.
+Proof. exists k1_ovr, (map item_of k1_entries). eexists. vm_compute. repeat split; auto. Qed.
 Print Assumptions lock_mutex_refuted_K1.
 
 (* K2: a dead holder, two overriding contenders; the oracle is respected (only the dead holder's lock is judged stale);
    the slower releaser destroys the faster one's fresh lock and both hold. *)
 Theorem lock_mutex_refuted_K2 : exists ovrs its s,
-  final ovrs its = Some s /\ respects_oracle (init ovrs) its = true /\ 2 <= live_holders s /\ bad s = true.
-Proof. exact refuted_K2_l. Qed.
+  final facts ovrs its = Some s /\ respects_oracle facts (init ovrs) its = true /\ 2 <= live_holders s /\ bad s = true.
+Proof. exists k2_ovr, (map item_of k2_entries). eexists. vm_compute. repeat split; auto. Qed.
 Print Assumptions lock_mutex_refuted_K2.
 
 (* K1b: nobody dies; the holder has begun to release (heartbeat cancelled) when an overriding contender judges the lock
    stale and takes it over; the slow Unlock then destroys the taker's lock; a third contender acquires as well. *)
 Theorem lock_mutex_refuted_K1b : exists ovrs its s,
-  final ovrs its = Some s /\ respects_oracle (init ovrs) its = true /\
+  final facts ovrs its = Some s /\ respects_oracle facts (init ovrs) its = true /\
   forallb (fun it => match it with IKill _ => false | _ => true end) its = true /\
   2 <= live_holders s /\ bad s = true.
-Proof. exact refuted_K1b_l. Qed.
+Proof. exists k1b_ovr, (map item_of k1b_entries). eexists. vm_compute. repeat split; auto. Qed.
 Print Assumptions lock_mutex_refuted_K1b.
